@@ -1,0 +1,45 @@
+//go:build verif
+
+package consensus
+
+import (
+	"github.com/tendermint/tendermint/libs/log"
+	"github.com/tendermint/tendermint/p2p"
+	"github.com/tendermint/tendermint/types"
+)
+
+// VerifPartsState is a consensus State at a given height that expects the parts of the block
+// committed to by a part-set header, as after a proposal for that header was accepted.
+type VerifPartsState struct {
+	cs *State
+}
+
+// VerifNewPartsState builds such a state; header == nil leaves ProposalBlockParts unset.
+func VerifNewPartsState(height int64, header *types.PartSetHeader, maxBytes int64) (*VerifPartsState, error) {
+	cs := &State{}
+	cs.Logger = log.NewNopLogger()
+	cs.eventBus = types.NewEventBus()
+	if err := cs.eventBus.Start(); err != nil {
+		return nil, err
+	}
+	cs.Height = height
+	cs.state.ConsensusParams.Block.MaxBytes = maxBytes
+	if header != nil {
+		cs.ProposalBlockParts = types.NewPartSetFromHeader(*header)
+	}
+	return &VerifPartsState{cs: cs}, nil
+}
+
+// AddPart runs State.addProposalBlockPart on a block part message from a peer.
+func (v *VerifPartsState) AddPart(msg *BlockPartMessage, peer p2p.ID) (bool, error) {
+	return v.cs.addProposalBlockPart(msg, peer)
+}
+
+// Block is the proposal block decoded from the completed parts (nil until then).
+func (v *VerifPartsState) Block() *types.Block { return v.cs.ProposalBlock }
+
+// Parts is the part set being filled.
+func (v *VerifPartsState) Parts() *types.PartSet { return v.cs.ProposalBlockParts }
+
+// Stop releases the event bus.
+func (v *VerifPartsState) Stop() { _ = v.cs.eventBus.Stop() }
